@@ -474,8 +474,35 @@ func runWire(c Case) kit.Outcome {
 	if c.Drop < 0 {
 		env.WaitStartedIDs(gated, bound)
 		env.OpenAll()
-		if !cli.WaitResponses(expected, bound) {
-			return verdictMissing(c, cli, frames, expected)
+		// wait for the required responses per sequence number: the optional ones (echoes cut short
+		// by a close) must not be mistaken for required ones that are still on their way
+		need := map[uint64]int{}
+		for _, f := range frames {
+			if f.item.Kind == "sdata" && closedStreams[f.item.Stream] {
+				continue
+			}
+			need[f.seq] += f.expects
+		}
+		deadline := time.Now().Add(bound)
+		for {
+			got := map[uint64]int{}
+			for _, r := range cli.Responses() {
+				got[r.Seq]++
+			}
+			missing := false
+			for q, n := range need {
+				if got[q] < n {
+					missing = true
+					break
+				}
+			}
+			if !missing {
+				break
+			}
+			if time.Now().After(deadline) {
+				return verdictMissing(c, cli, frames, expected)
+			}
+			time.Sleep(200 * time.Microsecond)
 		}
 		if optional > 0 {
 			cli.WaitResponses(expected+optional, 5*time.Millisecond)
@@ -564,7 +591,26 @@ func runWire(c Case) kit.Outcome {
 				return kit.Fail("answered-without-execution", "request %d (seq %d, %s) was answered but its handler ran %d times", f.id, f.seq, f.item.Kind, len(execs[f.id]))
 			}
 			if c.Drop < 0 && (n != 1 || len(execs[f.id]) != 1) {
-				return kit.Fail("not-executed-once", "request %d (seq %d): %d executions, %d responses on a connection that stayed up", f.id, f.seq, len(execs[f.id]), n)
+				o := kit.Fail("not-executed-once", "request %d (seq %d): %d executions, %d responses on a connection that stayed up", f.id, f.seq, len(execs[f.id]), n)
+				// diagnostics: where did the missing response go?
+				for q, k := range respCount {
+					if k > 1 && !streamSeqs[q] {
+						o.History = append(o.History, fmt.Sprintf("sequence number %d was answered %d times", q, k))
+					}
+				}
+				for ri, r := range cli.Responses() {
+					if g := unaryBySeq[r.Seq]; g != nil && g.args != nil && r.Error == "" && len(r.Reply) > 0 && string(r.Reply) != string(kit.Transform(g.args)) {
+						owner := "nobody's"
+						for _, h := range frames {
+							if h.args != nil && string(r.Reply) == string(kit.Transform(h.args)) {
+								owner = fmt.Sprintf("request %d's (seq %d)", h.id, h.seq)
+							}
+						}
+						o.History = append(o.History, fmt.Sprintf("response #%d on the wire carries sequence number %d but %s reply (%d bytes)", ri, r.Seq, owner, len(r.Reply)))
+					}
+				}
+				o.History = append(o.History, fmt.Sprintf("%d responses on the wire, %d expected (+%d optional)", len(cli.Responses()), expected, optional))
+				return o
 			}
 		case "unknown", "ping":
 			n := respCount[f.seq]
